@@ -584,6 +584,34 @@ def _summarise_array(sid, shape, dt, idx, prev, postv, iz, lo, hi, hv_consts, hv
     dec = _decompose_store(postv, prev)
     if dec is not None:
         cond, val = dec   # z3 bool cond(i, idx), value (SV/Cx) not mentioning havoc
+        # (1b) scatter-add: post = ite(cond(i, idx), prev + d(i, idx), prev), d and cond free of loop-carried state:
+        #      the per-iteration increment of element idx is ite(cond, d, 0) -> accumulation form (checked by loop-step/init)
+        #      (under cond the element index equals the store index: prev is compared at the store index)
+        eqs = []
+        stack = [z3.simplify(cond)]
+        while stack:
+            c = stack.pop()
+            if z3.is_and(c):
+                stack.extend(c.children())
+            elif z3.is_eq(c):
+                a, b = c.children()
+                if any(a.eq(v) for v in idz):
+                    eqs.append((a, b))
+                elif any(b.eq(v) for v in idz):
+                    eqs.append((b, a))
+        inc = sv.sub(val, _subst_val(prev, eqs) if eqs else prev)
+        its =[z3.simplify(t) for t in _terms_of(inc)] + [cond]
+        if not any(_contains_any(t, hv_consts, hv_funcs) for t in its):
+            inc = _subst_val(inc, [])
+            cw = sv.wrap(cond)
+            delta = Cx(ite(cw, inc.re, 0), ite(cw, inc.im, 0)) if isinstance(norm(inc), Cx) else ite(cw, inc, 0)
+
+            def at(k):
+                def fn(ix, k=k):
+                    pairs = [(a, sv.znum(b)) for a, b in zip(idz, ix)]
+                    return sv.add(pre_fn(ix), Sum(lo, k, lambda t: _subst_val(delta, pairs + [(iz, sv.znum(t))])))
+                return Content("arr", A._memo(fn), meta)
+            return at
         vts = _terms_of(val) + [cond]
         if not any(_contains_any(t, hv_consts, hv_funcs) for t in vts):
             sol = _solve_writer(cond, iz, idz)
